@@ -217,7 +217,7 @@ func (q PathQuery) from(fn *ssa.Function, start ssa.Instruction, startBlock *ssa
 	} else {
 		first = &item{b: start.Block(), i: Index(start) + 1}
 	}
-	constOf := func(v ssa.Value) string {
+	constOf := func(v ssa.Value, at ssa.Instruction) string {
 		vals := ValuesAt(v)
 		if len(vals) != 1 {
 			return ""
@@ -227,6 +227,10 @@ func (q PathQuery) from(fn *ssa.Function, start ssa.Instruction, startBlock *ssa
 		}
 		if IsNilConst(vals[0]) {
 			return "nil"
+		}
+		// an error that is certainly there: freshly made, a sentinel, or returned under its own non-nil test
+		if IsErrorType(v.Type()) && (freshError(vals[0]) || KnownNonNil(vals[0], at)) {
+			return "nonnil"
 		}
 		return ""
 	}
@@ -250,6 +254,12 @@ func (q PathQuery) from(fn *ssa.Function, start ssa.Instruction, startBlock *ssa
 								return 1
 							}
 							return -1
+						}
+						if k, ok := known[pair[0]]; ok && k == "nonnil" {
+							if x.Op == token.EQL {
+								return -1
+							}
+							return 1
 						}
 					}
 				}
@@ -281,7 +291,7 @@ func (q PathQuery) from(fn *ssa.Function, start ssa.Instruction, startBlock *ssa
 					known[k] = v
 				}
 				if len(ret.Results) == 1 {
-					if k := constOf(ret.Results[0]); k != "" {
+					if k := constOf(ret.Results[0], ret); k != "" {
 						known[call] = k
 					} else {
 						delete(known, call)
@@ -289,7 +299,7 @@ func (q PathQuery) from(fn *ssa.Function, start ssa.Instruction, startBlock *ssa
 				} else {
 					for _, u := range Referrers(call) {
 						if ex, ok := u.(*ssa.Extract); ok && ex.Index < len(ret.Results) {
-							if k := constOf(ret.Results[ex.Index]); k != "" {
+							if k := constOf(ret.Results[ex.Index], ret); k != "" {
 								known[ex] = k
 							} else {
 								delete(known, ex)
@@ -1343,6 +1353,47 @@ func intBounds(v ssa.Value, conds []CondEdge, seen map[ssa.Value]bool) (lo, hi i
 		}
 		return
 	}
+	// the result of a call the analyses look through: the join over the callee's (successful) returns, each under the
+	// conditions that lead to it
+	{
+		var callee *ssa.Function
+		idx := 0
+		switch x := v.(type) {
+		case *ssa.Extract:
+			if call, isCall := x.Tuple.(*ssa.Call); isCall {
+				callee, idx = TransparentCallee(call), x.Index
+			}
+		case *ssa.Call:
+			if x.Call.Signature().Results().Len() == 1 {
+				callee = TransparentCallee(x)
+			}
+		}
+		if callee != nil {
+			first := true
+			okLo, okHi = true, true
+			for _, r := range successReturns(callee) {
+				if idx >= len(r.Results) {
+					continue
+				}
+				cs := append(append([]CondEdge{}, conds...), GuardingEdges(r)...)
+				l, h, ol, oh := intBounds(r.Results[idx], cs, seen)
+				if first {
+					lo, hi, first = l, h, false
+				}
+				okLo, okHi = okLo && ol, okHi && oh
+				if l < lo {
+					lo = l
+				}
+				if h > hi {
+					hi = h
+				}
+			}
+			if !first {
+				return
+			}
+			okLo, okHi = false, false
+		}
+	}
 	// a non-constant leaf: bounded by the guarding comparisons with constants
 	for _, e := range conds {
 		bo, ok := e.If.Cond.(*ssa.BinOp)
@@ -1666,6 +1717,11 @@ func OrderFact(e CondEdge) (lo, hi ssa.Value, strict, ok bool) {
 // taken on a path that established it to be the smaller (or equal) one. same decides whether two SSA values
 // denote the same quantity (identity is always accepted).
 func MinSelect(v ssa.Value, same func(x, y ssa.Value) bool) (a, b ssa.Value, ok bool) {
+	if call, isCall := stripConv(v).(*ssa.Call); isCall && len(call.Call.Args) == 2 {
+		if bi, isB := call.Call.Value.(*ssa.Builtin); isB && bi.Name() == "min" {
+			return call.Call.Args[0], call.Call.Args[1], true
+		}
+	}
 	leaves := PhiLeaves(v)
 	if len(leaves) != 2 {
 		return nil, nil, false
@@ -1865,4 +1921,59 @@ func SameValues(x, y ssa.Value) bool {
 		}
 	}
 	return true
+}
+
+// SameExpr: x and y are the same pure expression: the same value, equal constants, the same arithmetic over the same
+// expressions (`next+size` written twice), len of the same expression, or two reads of one field path of a parameter.
+func SameExpr(x, y ssa.Value) bool {
+	x, y = stripConv(x), stripConv(y)
+	if x == y || sameQuantity(x, y) {
+		return true
+	}
+	if kx, ok := ConstInt(x); ok {
+		ky, ok2 := ConstInt(y)
+		return ok2 && kx == ky
+	}
+	switch a := x.(type) {
+	case *ssa.BinOp:
+		b, ok := y.(*ssa.BinOp)
+		if !ok || a.Op != b.Op {
+			return false
+		}
+		if SameExpr(a.X, b.X) && SameExpr(a.Y, b.Y) {
+			return true
+		}
+		return (a.Op == token.ADD || a.Op == token.MUL) && SameExpr(a.X, b.Y) && SameExpr(a.Y, b.X)
+	case *ssa.Call:
+		b, ok := y.(*ssa.Call)
+		if !ok || CalleeName(a) != "builtin len" || CalleeName(b) != "builtin len" {
+			return false
+		}
+		return SameExpr(a.Call.Args[0], b.Call.Args[0]) || SameValues(a.Call.Args[0], b.Call.Args[0])
+	}
+	return false
+}
+
+// freshError: v is an error that cannot be nil: errors.New / fmt.Errorf, a grpc status with a constant code other
+// than OK, or a sentinel error variable that is assigned once at initialisation.
+func freshError(v ssa.Value) bool {
+	switch x := v.(type) {
+	case *ssa.Call:
+		switch CalleeName(x) {
+		case "errors.New", "fmt.Errorf":
+			return true
+		case "google.golang.org/grpc/status.Error", "google.golang.org/grpc/status.Errorf":
+			if k, ok := ConstInt(x.Call.Args[0]); ok && k != 0 {
+				return true
+			}
+		}
+	case *ssa.UnOp:
+		if g, ok := x.X.(*ssa.Global); ok && x.Op == token.MUL {
+			return GlobalAlwaysNonNil(g)
+		}
+	case *ssa.MakeInterface:
+		_, isAlloc := x.X.(*ssa.Alloc)
+		return isAlloc
+	}
+	return false
 }
